@@ -1,11 +1,14 @@
 """C17 - name tables behave as dictionaries under any history (hashmap.c + macro table)."""
 import os, json, itertools, hashlib
 from .framework import *
+from . import c17_clients
 
 PROPERTY = 'C17'
-GEN_MODULES = ['hashmap']
-LEAN_TARGETS = ['ChibiVerif.Props.C17', 'ChibiVerif.Findings.C17']
-PROPS_FILES = ['ChibiVerif/Props/C17.lean']
+GEN_MODULES = ['hashmap', 'lexgen']
+LEAN_TARGETS = ['ChibiVerif.Props.C17', 'ChibiVerif.Props.C17Clients', 'ChibiVerif.Props.C17Hash', 'ChibiVerif.Props.C17Bound',
+                'ChibiVerif.Findings.C17', 'ChibiVerif.Findings.C17Deep']
+PROPS_FILES = ['ChibiVerif/Props/C17.lean', 'ChibiVerif/Props/C17Clients.lean', 'ChibiVerif/Props/C17Hash.lean',
+               'ChibiVerif/Props/C17Bound.lean']
 NEEDS_HOOKS = False
 TRUSTED_BASE = [
     'Lean 4.33.0 kernel; axioms admitted: propext, Classical.choice, Quot.sound (audited per theorem on every run)',
@@ -14,7 +17,17 @@ TRUSTED_BASE = [
     'translator tools/extract/hashmap.py (INIT_SIZE, watermarks, fnv_hash constants and shape, probe expression)',
     'C int arithmetic modelled in Nat: assumes capacity*100 < 2^31 (fewer than ~10^7 live names)',
     'macro-table clients (add_macro/undef_macro/find_macro, -D/-U) are tied by running the real chibicc -E on generated '
-    'define/undef histories against the abstract dictionary; other client tables only by call-site inspection in the translator',
+    'define/undef histories against the abstract dictionary',
+    'key conventions of the clients (Model/C17Clients.lean: token span, strndup+strlen, existing C string) are tied by running '
+    'the real hashmap_get/put/delete wrappers with real strndup/strlen (gcc+ASan build and a chibicc-built stage-2 build of '
+    'the same harness) against drv_c17 hashmapx; the list of all hashmap_* call sites with the provenance of every key '
+    '(Gen/HashSitesGen.lean) is produced by tools/extract/hashmap.py from the source text (parameters, locals and return values '
+    'followed through the nine files) and cross-checked against the number of references clang-14 sees in the typed AST; '
+    'the typing of the probe index and of the fnv step is checked node by node against clang-14\'s AST',
+    'scopes, typedef/tag tables, keyword sets and the macro table are driven through the compiler itself on adversarial '
+    'identifier families with gcc 12 and a python oracle as references (testing)',
+    'not proved: that no object is written after its address became a key (supported by C17_key_memory_stable: no free, '
+    'realloc only of two pointer arrays, in-place buffer rewriters run before tokenization)',
 ]
 ASSUMPTIONS = ['values stored in tables are non-NULL (hashmap_get returning NULL means absent)',
                'keys are compared by length and bytes; the hash function is arbitrary in the theorems']
@@ -24,6 +37,13 @@ MASK = (1 << 64) - 1
 def fnv(s, consts):
     h = consts['off']
     for c in s.encode():
+        h = (h * consts['prime']) & MASK
+        h ^= c
+    return h
+
+def fnv_bytes(b, consts):
+    h = consts['off']
+    for c in b:
         h = (h * consts['prime']) & MASK
         h ^= c
     return h
@@ -44,8 +64,18 @@ def build_harness(ctx):
         raise BuildFailure('hashmap harness does not compile against the snapshot: ' + e[-1500:])
     return exe
 
-def run_impl(ctx, text):
-    exe = build_harness(ctx)
+def build_harness_stage2(ctx):
+    """the same harness compiled by the snapshot's chibicc: hashmap.c as the stage-2 compiler would contain it"""
+    exe = os.path.join(ctx.scratch, 'hashmap_harness_s2')
+    if os.path.exists(exe):
+        return exe
+    rc, o, e = sh([ctx.cc, '-I', ctx.snapshot, '-o', exe, os.path.join(VERIF, 'tools/harness/hashmap_harness.c')], timeout=300)
+    if rc != 0 or not os.path.exists(exe):
+        raise BuildFailure('chibicc does not compile the hashmap harness: ' + (e or o)[-1500:])
+    return exe
+
+def run_impl(ctx, text, stage2=False):
+    exe = build_harness_stage2(ctx) if stage2 else build_harness(ctx)
     env = dict(os.environ, ASAN_OPTIONS='detect_leaks=0:abort_on_error=0')
     rc, o, e = sh([exe], input=text, timeout=600, env=env)
     lines = o.splitlines()
@@ -282,7 +312,14 @@ def correspond(ctx, corr):
                  'paths and to the 70% watermark; the suite history.  Each is run on the real hashmap.c (in-process, ASan/UBSan) '
                  'and on the Lean model, states compared bucket by bucket after every op, and gets compared with the abstract '
                  'dictionary.  non-trivial = the run produced a tombstone or grew the table; distinct = by history text.  '
-                 'Plus #define/#undef/-D/-U histories through chibicc -E.')
+                 'Plus #define/#undef/-D/-U histories through chibicc -E.  Plus histories of byte-string keys passed by the three '
+                 'client conventions (token span with arbitrary following bytes, strndup+strlen, existing C string; families: prefix '
+                 'chains, one-character names, 255/256/4000-byte names, UTF-8 and raw bytes >= 0x80, keywords and near-keywords, embedded '
+                 'NUL) on the real wrappers (gcc+ASan build; the same harness built by chibicc itself) against the model and a dictionary '
+                 'keyed by the C meaning of each key; non-trivial = one key reached through two conventions.  Plus fnv_hash of all '
+                 'names and random byte strings (four-way).  Plus C programs over the same identifier families (tags, typedef names, '
+                 'shadowing block scopes, labels, macros incl. keyword-named ones, >1000 define/undef cycles, >10000 declarations in '
+                 'one block) compiled by chibicc and gcc and compared with a python oracle; use-after-scope/#undef must be rejected.')
     text = ''
     index = []
     for tag, ops in hs:
@@ -329,7 +366,17 @@ def correspond(ctx, corr):
     corr.exhaustive = False
     corr.extra['exhaustive_subspace'] = f"all put/del histories of length {5 if not ctx.thorough else 6} over {3 if not ctx.thorough else 4} colliding keys"
     corr.sample({'history': fmt(index[1][1]).split('\n')[:8], 'impl_last_state': si[1][-3] if len(si) > 1 and len(si[1]) > 2 else None})
+    if corr.violations:
+        return
     macro_histories(ctx, corr, consts)
+    if corr.violations:
+        return
+    # the clients' key conventions on the real wrappers (gcc+ASan build and chibicc-built stage-2 build) against the model
+    c17_clients.client_key_histories(ctx, corr, run_impl, lambda b: fnv_bytes(b, consts))
+    if corr.violations:
+        return
+    # the real clients inside the compiler on adversarial identifier families, gcc 12 and a python oracle as references
+    c17_clients.compiler_families(ctx, corr)
 
 def search(ctx, broken, corr):
     """proof or tie is broken but no violation was seen by the standard run: look harder with the abstract dictionary as oracle"""
@@ -365,6 +412,16 @@ def search(ctx, broken, corr):
         if cur and any(x.startswith('crash') for x in cur) and i < len(batch):
             small = shrink(ctx, batch[i])
             return {'what': check_history(ctx, small), 'history': [list(o) for o in small], 'replay_ops': fmt(small)}
+    # define/undefine churn over distinct names around a small live set: tombstones must be dropped by a rehash before the
+    # table runs out of empty buckets (the dual of the capacity bound, Findings C17_live_only_accounting_aborts)
+    for n in (20, 40, 200, 1500):
+        ops = [('put', 'keep', 1)]
+        for i in range(n):
+            ops += [('put', f'ch{i}', i + 2), ('del', f'ch{i}')]
+        ops += [('get', 'absent'), ('get', 'keep'), ('get', 'ch0')]
+        bad = check_history(ctx, ops)
+        if bad:
+            return {'what': bad, 'history': [list(o) for o in ops], 'replay_ops': fmt(ops)}
     # long random fill/delete churn (watermark / growth bugs)
     rng = ctx.rng
     for trial in range(60):
@@ -383,6 +440,17 @@ def search(ctx, broken, corr):
 
 def replay(ctx, corr, path):
     payload = json.load(open(path))
+    if payload.get('program'):
+        c17_clients.replay_program(ctx, corr, payload)
+        return
+    if payload.get('kops'):
+        ops = c17_clients.parse_kops(payload['kops'])
+        corr.evaluations = 1
+        bad = c17_clients.client_bad(ctx, run_impl, ops) if ops else run_impl(ctx, payload['kops']) != run_impl(ctx, payload['kops'], stage2=True)
+        print('replay:', 'the key history still fails' if bad else 'the key history now behaves like a dictionary keyed by spelling')
+        if bad:
+            corr.violations.append(dict(payload))
+        return
     text = payload.get('replay_ops')
     if not text:
         corr.extra['replay'] = 'replay file carries no operation history'
@@ -404,11 +472,21 @@ MANIFEST = {
                   'C17_get_agrees_with_state). The model is tied to the code on every run: constants and fnv_hash are regenerated by a '
                   'translator, and the hand model is run against the real hashmap.c (in-process, every bucket compared after every '
                   'operation) on exhaustive short colliding histories plus seeded random ones; the macro table wrappers are exercised '
-                  'through chibicc -E against the dictionary.',
+                  'through chibicc -E against the dictionary.  Deepened: C17_client_keys / C17_clients_dictionary / '
+                  'C17_client_last_write_wins (whatever mix of key conventions the clients use - token span, strndup+strlen, C string - '
+                  'two names meet in a table iff their spellings are equal; side conditions: token inside its buffer, copied token '
+                  'NUL-free, string terminated), C17_sites_audited (whole-list decide over the regenerated list of every hashmap_* call '
+                  'site with the provenance of its key), C17_key_memory_stable, C17_fnv_typed / C17_index_agrees / C17_reachable_index '
+                  '(the C typing of fnv_hash and of the probe index, read from clang\'s typed AST, equals the model for all 2^64 hashes '
+                  'because every reachable capacity is a power of two), C17_capacity_bound / C17_churn_bounded / C17_no_int_overflow '
+                  '(capacity <= max(16, 4 * peak number of live names); the int arithmetic cannot overflow below 5.3 million live names), '
+                  'C17_hash_irrelevant.',
     'level_note': 'Trusted: Lean kernel (axioms propext, Classical.choice, Quot.sound only; audited each run), the hand model of the '
                   'probe/rehash loops (tied by state-level differential execution, which is testing), tools/extract/hashmap.py, '
-                  'Nat instead of C int (capacity*100 < 2^31 assumed). Client tables other than the macro table are instances by '
-                  'inspection only.',
+                  'Nat instead of C int (capacity*100 < 2^31: proved from a bound on the number of live names, C17_no_int_overflow). '
+                  'The call-site list and key provenance come from a text-level translator (cross-checked against clang\'s reference '
+                  'count); immutability of key memory after insertion is assumed (supported by C17_key_memory_stable). Scope/tag/typedef/'
+                  'keyword tables are exercised through the compiler against gcc, which is testing.',
     'technique': 'Lean 4 refinement proof by invariant + induction over operation lists; translator-regenerated constants; '
                  'state-level differential correspondence with the real hashmap.c',
     'design_ref': 'DESIGN.md section 6, C17',
